@@ -58,7 +58,9 @@ NextGap(pre, ev, out, post, gap) ==
 JRowSha(j, n) == IF \E i \in DOMAIN j : j[i].seq = n
                  THEN j[CHOOSE i \in DOMAIN j : j[i].seq = n].sha ELSE "missing"
 N1(pre, out) == LET nw == NewFrames(out.wrote) IN \A i \in DOMAIN nw : nw[i].seq = pre.nout + i - 1
-N2(pre, out, post) == post.nout = pre.nout + Len(NewFrames(out.wrote))
+\* (a send that fails for a reason other than the connection state - text that cannot be
+\*  encoded, a transport error - may have consumed its number: nothing is demanded then)
+N2(pre, out, post) == out.exc \in {"none", "FIXConnectionError"} => post.nout = pre.nout + Len(NewFrames(out.wrote))
 N3(out, post) == LET nw == NewFrames(out.wrote) IN \A i \in DOMAIN nw : JRowSha(post.jout, nw[i].seq) = nw[i].sha
 N4(pre, out, post) == NewFrames(out.wrote) # <<>> => post.sout = post.nout
 N5(pre, ev, out, post) ==
